@@ -17,6 +17,13 @@ var logger = log.With().Str("component", "updater").Logger()
 
 // getLatestVersionFromGitHub checks the latest version on GitHub and returns it.
 func getLatestVersionFromGitHub() (*selfupdate.Release, error) {
+	latest, _, err := detectLatestVersion()
+	return latest, err
+}
+
+// detectLatestVersion returns the latest release together with the updater that
+// found it, so that the same (checksum validating) updater can install it.
+func detectLatestVersion() (*selfupdate.Release, *selfupdate.Updater, error) {
 	source, err := selfupdate.NewGitHubSource(selfupdate.GitHubConfig{})
 	if err != nil {
 		logger.Fatal().Err(err)
@@ -26,16 +33,16 @@ func getLatestVersionFromGitHub() (*selfupdate.Release, error) {
 		Validator: &selfupdate.ChecksumValidator{UniqueFilename: "crs-toolchain-checksums.txt"}, // checksum from goreleaser
 	})
 	if err != nil {
-		return nil, err
+		return nil, nil, err
 	}
 	latest, found, err := updater.DetectLatest(context.Background(), selfupdate.ParseSlug("coreruleset/crs-toolchain"))
 	if err != nil {
-		return latest, fmt.Errorf("error occurred while detecting version: %w", err)
+		return latest, updater, fmt.Errorf("error occurred while detecting version: %w", err)
 	}
 	if !found {
-		return latest, fmt.Errorf("latest version for %s/%s could not be found on GitHub repository", runtime.GOOS, runtime.GOARCH)
+		return latest, updater, fmt.Errorf("latest version for %s/%s could not be found on GitHub repository", runtime.GOOS, runtime.GOARCH)
 	}
-	return latest, nil
+	return latest, updater, nil
 }
 
 // LatestVersion checks the latest version on GitHub and returns it.
@@ -51,7 +58,7 @@ func LatestVersion() (string, error) {
 // Returns the version string of the updated release, or an error if something went wrong.
 func Updater(version string, executablePath string) (string, error) {
 	emptyVersion := ""
-	latest, err := getLatestVersionFromGitHub()
+	latest, validatingUpdater, err := detectLatestVersion()
 	if err != nil {
 		return emptyVersion, err
 	}
@@ -71,7 +78,9 @@ func Updater(version string, executablePath string) (string, error) {
 		logger.Info().Msgf("Updating file \"%s\"", executablePath)
 	}
 
-	if err := selfupdate.UpdateTo(context.Background(), latest.AssetURL, latest.AssetName, executablePath); err != nil {
+	// The package level selfupdate.UpdateTo uses a default updater without validator;
+	// only the updater configured above verifies the checksum of the download.
+	if err := validatingUpdater.UpdateTo(context.Background(), latest, executablePath); err != nil {
 		return emptyVersion, fmt.Errorf("error occurred while updating binary: %w", err)
 	}
 	logger.Info().Msgf("Successfully updated to version %s", latest.Version())
